@@ -16,8 +16,10 @@ import itertools
 import math
 from fractions import Fraction
 
+from vf import refsem
 from vf.c10_field import (
-    UNDEF, DRef, DualEval, Field, NotInFragment, Skip, call_class, math_call,
+    UNDEF, DRef, DualEval, Field, FloatSkip, NotInFragment, Skip, call_class, float_dual,
+    math_call,
 )
 from vf.localise import localise
 from vf.refsem import UnknownVariable
@@ -47,6 +49,10 @@ MAX_POINTS = 64                                      # per expression (<= 3 vari
 SETTINGS = ("none", "continuous", "discontinuous")
 LEVEL = {"none": 0, "continuous": 1, "discontinuous": 2}
 HISTORY_LEN = {"quick": 2, "thorough": 3}
+DEEP_MAX = 6                                         # "cse-deep": nesting depth of the towers
+TAIL_X = (20.0, -20.0, 400.0, -400.0, 800.0, -800.0)  # "tails": float points far from the origin
+TAIL_Y = (1.0, -0.5)
+TAIL_RTOL, TAIL_ATOL = 1e-9, 1e-12
 MAX_ARITY = 3                                        # "arity" family: table names x 0..3 arguments
 # constants whose CPython hashes collide (hash(-1) == hash(-2), hash(0) == hash(2**61-1)): two
 # sibling nodes differing only in such a pair have equal hashes without being equal; and constants
@@ -424,6 +430,63 @@ def examine(spec, tier, grid="std", r=None, first_only=True):
     return fails
 
 
+# {{{ float evaluation in the tails
+
+_TAIL_ERRORS = (OverflowError, ValueError, ZeroDivisionError, FloatSkip)
+
+
+def examine_tail(spec, r):
+    """The returned derivative, evaluated with Python's math in floats, must be evaluable (no
+    exception) and agree with the textbook forward-mode value at every tail point where the
+    input's value and every intermediate of the textbook rules are finite floats."""
+    import math
+    expr = build(spec)
+    fails, seen = [], set()
+    leaves = value_leaves(spec)
+    _, anyl, _ = required_levels(spec, leaves)
+    nontrivial = False
+    for dv in leaves:
+        setting = SETTINGS[anyl]            # the weakest setting that allows the whole input
+        out = run_diff(expr, dv, "obj", setting)
+        r.evals += 1
+        cfg = f"input {show(spec)}: d/d{show(dv)} [allowed_nonsmoothness={setting}]"
+        if out[0] == "err":
+            fails.append((f"raises:{out[1]}", f"{cfg} raised {out[1]}({out[2]})"))
+            continue
+        for x0 in TAIL_X:
+            for y0 in (TAIL_Y if Y in leaves else TAIL_Y[:1]):
+                env = {"x": x0, "y": y0}
+                r.count("tail_points")
+                try:
+                    _, want = float_dual(spec, env, dv)
+                except _TAIL_ERRORS:
+                    r.count("tail_points_skipped")
+                    continue
+                nontrivial = True
+                r.count("tail_comparisons")
+                got = refsem.outcome(refsem.evaluate, out[1],
+                                     dict(env, math=math, log=math.log))
+                if got[0] == "err":
+                    kind = f"tail-undefined:{got[1]}"
+                    detail = (f"{cfg} = {show(out[1])} raises {got[1]}({got[2]}) at {env}; the "
+                              f"input is evaluable there and its derivative is {want!r}")
+                elif not isinstance(got[1], (int, float)) or \
+                        not abs(got[1] - want) <= TAIL_RTOL * abs(want) + TAIL_ATOL:
+                    kind = "tail-value"
+                    detail = f"{cfg} = {show(out[1])} evaluates to {got[1]!r} at {env}, " \
+                             f"derivative is {want!r}"
+                else:
+                    continue
+                if kind not in seen:
+                    seen.add(kind)
+                    fails.append((kind, detail))
+    if nontrivial:
+        r.keys.append(("t", spec))
+    return fails
+
+# }}}
+
+
 # {{{ CSE histories
 
 def cse_pool():
@@ -500,7 +563,10 @@ class C10(Check):
             "non-smooth functions below every parent position), shared CSEs, pairs of sibling "
             "CSEs whose children differ only in hash-colliding constants (-1/-2, 0/2**61-1, "
             "-1/-2**61) or in ==-but-differently-typed constants (1/1.0/True, ...) in 7 contexts "
-            "and both orders, and all call "
+            "and both orders, pairs of sibling CSEs whose bodies are the same tower (4 kinds) of "
+            "depth 1..6 and differ only in the innermost leaf, every table function of 5 inner "
+            "arguments x 5 parents evaluated with Python's math in floats at |x| = 20, 400, 800 "
+            "(tails), and all call "
             "histories up to length 2/3 over {differentiate(), one re-used mapper instance per "
             "variable} x {x, y} x 5 CSE expressions. Each expression x every value leaf, an "
             "absent name and an absent subscript as differentiation variable (object / name / "
@@ -526,6 +592,11 @@ class C10(Check):
         "variable may either be refused or be differentiated (to the correct value); when its "
         "argument mentions the variable refusal (any exception) is demanded",
         "0**0 = 1 in the returned expression (Python's convention)",
+        "tails family only: floats are the deciding domain there (evaluability of the returned "
+        "expression with Python's math where the input and every intermediate of the textbook "
+        "forward-mode rules are finite; agreement within rtol 1e-9 + atol 1e-12); the oracle's "
+        "float table uses for every function a formula that is evaluable wherever the function "
+        "is (tanh' = 4q/(1+q)^2, q = exp(-2|u|))",
         "a table name called with an arity the table does not know is an unknown function and "
         "must be refused; the one exception is math.log(u, b), which Python's math defines: it "
         "may be refused or differentiated to d(ln u / ln b)",
@@ -543,6 +614,8 @@ class C10(Check):
             ("cse-shared", self.gen_cse_shared),
             ("cse-twins", self.gen_cse_twins),
             ("arity", self.gen_arity),
+            ("cse-deep", self.gen_cse_deep),
+            ("tails", self.gen_tails),
             ("cse-histories", lambda: self.gen_histories(tier)),
         ]
         if tier == "thorough":
@@ -638,6 +711,40 @@ class C10(Check):
                 yield ("e", CSE(Prod(w, CSE(Sum(w, X)))))
                 yield ("e", If(Cmp(X, "<", Y), w, Prod(w, w)))
 
+    def gen_cse_deep(self):
+        """Two different wrappers in ONE expression whose bodies are the same tower of depth
+        1..DEEP_MAX and differ only in the innermost leaf: a memo keyed on anything that looks at
+        a bounded depth only (a depth-limited repr, a truncated structural hash) confuses them."""
+        towers = (
+            lambda e: Sum(Prod(e, C(2)), C(1)),
+            lambda e: Pow(e, C(2)),
+            lambda e: Quot(C(1), Sum(e, C(1))),
+            lambda e: CSE(Prod(e, Y)),
+        )
+        leaf_pairs = ((Prod(X, X), Prod(X, X, X)), (X, Y), (Sum(X, C(2)), Sum(X, C(3))))
+        contexts = (lambda a, b: Sum(a, b), lambda a, b: Prod(a, b),
+                    lambda a, b: Quot(a, Sum(b, C(4))))
+        for tw in towers:
+            for l1, l2 in leaf_pairs:
+                a, b = l1, l2
+                for _ in range(DEEP_MAX):
+                    a, b = tw(a), tw(b)
+                    for ctx in contexts:
+                        yield ("e", ctx(CSE(a), CSE(b)))
+                        yield ("e", ctx(CSE(b, "p"), CSE(a, "p")))
+
+    def gen_tails(self):
+        """Every table function of an inner argument, bare and below four parents, evaluated in
+        floats (Python's math) far from the origin."""
+        inner = (X, Prod(C(2), X), Prod(C(-1), X), Prod(X, Y), Sum(X, Y))
+        ctxs = (lambda c: c, lambda c: Prod(c, X), lambda c: Sum(c, Prod(X, Y)),
+                lambda c: Quot(C(1), c), lambda c: Pow(c, C(2)))
+        for f in (*SMOOTH_FUNCS, "fabs", "sign"):
+            for u in inner:
+                call = sign(u) if f == "sign" else mcall(f, u)
+                for ctx in ctxs:
+                    yield ("t", ctx(call))
+
     def gen_arity(self):
         """Every name of the derivative table called with every arity 0..3 other than (and
         including) the one the table knows, arguments over x, y, 2, bare and below five parents:
@@ -712,6 +819,10 @@ class C10(Check):
                 pre = ops[:n + 1]
                 sig = "history:" + kind + "|" + " ; ".join(f"{e}:d/d{v}:e{i}" for e, v, i in pre)
                 r.fail("history:" + kind, sig, detail, witness=("h", pre))
+            return r
+        if item[0] == "t":
+            for kind, detail in examine_tail(item[1], r):
+                r.fail(kind, f"{kind}|{show(canon_vars(item[1]))}", detail, witness=item)
             return r
         spec = item[1]
         grid = item[2] if len(item) > 2 else "std"
